@@ -286,8 +286,9 @@ func c12RunSite(ctx *core.Ctx, site string, ref core.CaseRef, r *rand.Rand, nrow
 
 	// the expr-lang spelling of the predicate over the raw columns (sites that see the raw row)
 	vanText := ""
+	var q c12Pred
 	if site == "where" || site == "when" {
-		q := c12Pred{Join: p.Join}
+		q = c12Pred{Join: p.Join}
 		ok := true
 		for _, c := range p.Parts {
 			if c.Op == "=" {
@@ -329,7 +330,7 @@ func c12RunSite(ctx *core.Ctx, site string, ref core.CaseRef, r *rand.Rand, nrow
 			if failed {
 				failing++
 				failingSeen = true
-				if dF[i] || dG[i] {
+				if (dF[i] || dG[i]) && !c12RescuedByOr(q, row) {
 					agg.add(core.Violation{Kind: "failure.accepts_row", Attrs: mk("value_type", typ, "range", rng),
 						Detail: fmt.Sprintf("site %s: expr-lang fails to evaluate %q on row %s, yet the row was accepted (bare: %v, parenthesised: %v)", site, vanText, shown, dF[i], dG[i]), Case: &vcase})
 				}
